@@ -167,6 +167,7 @@ def run(ctx):
     ctx.histogram['unmodelled'] = unm
     oracle(ctx, fn, days, years)
     daytime(ctx, D)
+    datetimes(ctx, D)
 
 
 def oracle(ctx, fn, days, years):
@@ -248,6 +249,17 @@ def oracle(ctx, fn, days, years):
             if want > 60 and got != ('ok', want):
                 ctx.violation(dict(call='edate', args=[n, k]), "EDATE does not shift by whole months",
                               impl=got, expected=want)
+    # EOMONTH into the first months of Excel's calendar, where it differs from the Gregorian one: January,
+    # (29-day) February and March 1900 end on the serial days 31, 60 and 91
+    for n, m0 in [(1, 1), (15, 1), (31, 1), (32, 2), (40, 2), (59, 2), (60, 2), (61, 3), (75, 3), (426, 15), (791, 27)]:
+        for target, want in ((1, 31), (2, 60), (3, 91)):
+            k = target - m0
+            ctx.count(('eom1900', n, k), kind='oracle-eomonth')
+            got = run_impl(fn['eomonth'], n, k)
+            if not (got[0] == 'ok' and isinstance(got[1], (int, tuple)) and value_num(got[1]) == want):
+                ctx.violation(dict(call='eomonth', args=[n, k], oracle='eomonth-1900'),
+                              "EOMONTH is not the last day of the shifted month (Excel's 1900 calendar)",
+                              impl=got, expected=want)
     # EDATE from the last days of a month into every February nearby (leap and non-leap targets
     # in years other than the start year: the clip must use the TARGET month's length)
     import calendar
@@ -286,6 +298,47 @@ def oracle(ctx, fn, days, years):
             if x != y or x[0] != 'ok':
                 ctx.violation(dict(call='yearfrac', args=[a, b, basis]), "YEARFRAC is not symmetric / raises",
                               impl=[x, y])
+
+
+@known_predicate('C17-time-far-date-part')
+def _time_far(case):
+    """HOUR/MINUTE/SECOND of a date-time whose date part is 131072 (2^17, in the year 2258) or later: the
+    1 microsecond rounding guard of time_from_serialnumber no longer covers the float error of the serial
+    number, whole minutes come out as (h, m-1, 60)."""
+    return case.get('call') == 'hms-datetime' and case['args'][0] >= 131072
+
+
+def value_num(v):
+    """canonical implementation number -> a number (('float', Fraction) or int)"""
+    return v[1] if isinstance(v, tuple) and v and v[0] == 'float' else v
+
+
+def datetimes(ctx, D):
+    """HOUR/MINUTE/SECOND of date-times day + s/86400 (oracle only: the PrimFloat model is stated for the
+    fraction of a day): date parts below 2^17 (up to the year 2258) must decompose exactly; from 2^17 on
+    the known finding C17-time-far-date-part is exhibited on one fixed input."""
+    rng = ctx.rng
+    days = [1, 59, 60, 61, 1000, 4748, 20000, 36525, 36526, 45000, 65535, 65536, 73050, 100000, 131071]
+    days += [rng.randrange(1, 131072) for _ in range(ctx.n(40, 400))]
+    for d in days:
+        secs = set(range(0, 86400, 60)) if d in (36525, 131071) else set(rng.randrange(1440) * 60 for _ in range(40))
+        secs |= set(rng.randrange(86400) for _ in range(ctx.n(60, 400)))
+        for sec in sorted(secs):
+            x = d + sec / 86400
+            got = [D.hour(x), D.minute(x), D.second(x)]
+            want = [sec // 3600, sec // 60 % 60, sec % 60]
+            ctx.count(('dt', d, sec), kind='oracle-datetime')
+            if got != want:
+                ctx.violation(dict(call='hms-datetime', args=[d, sec]),
+                              "HOUR/MINUTE/SECOND(day + s/86400) is not (s/3600, s/60 mod 60, s mod 60)",
+                              impl=got, expected=want)
+                break
+    d, sec = 131072, 60
+    x = d + sec / 86400
+    got = [D.hour(x), D.minute(x), D.second(x)]
+    if got != [0, 1, 0]:
+        ctx.violation(dict(call='hms-datetime', args=[d, sec]),
+                      "HOUR/MINUTE/SECOND(day + s/86400) is not (s/3600, s/60 mod 60, s mod 60)", impl=got, expected=[0, 1, 0])
 
 
 def daytime(ctx, D):
